@@ -220,6 +220,21 @@ def run_point(p: Dict[str, Any], verbose: bool = False) -> Tuple[Optional[Dict[s
                         problems.append(f"goodbye: {back[:2]} transmitted with a TTL {d.t_ms - last_bye:.0f} ms after the last "
                                         f"goodbye, before close returned")
                         break
+        # whatever finished registering while close was under way is a registered service too: it must not be left
+        # announced (positive TTL as the last word on the wire) or sitting in the registry
+        last_ttl: Dict[tuple, Tuple[int, float]] = {}
+        for s_ in w.net.trace[:closed_trace]:
+            if s_.host != host.name:
+                continue
+            d_ = Decoded(s_)
+            if d_.is_response and d_.multicast:
+                for i, ttl in d_.idents_ttl():
+                    if i[0] == "PTR":
+                        last_ttl[i] = (ttl, d_.t_ms)
+        left = sorted((i for i, (ttl, _) in last_ttl.items() if ttl > 0), key=repr)
+        if left:
+            problems.append(f"registered-during-close: {left[:2]} was last multicast with a positive TTL "
+                            f"{last_ttl[left[0]][1] - t_req:.0f} ms after close was requested and never withdrawn")
         if not all(t.closed for t in host.transports()):
             problems.append("sockets: a transport is still open after close returned")
         # second close: a no-op
@@ -255,6 +270,8 @@ def run_point(p: Dict[str, Any], verbose: bool = False) -> Tuple[Optional[Dict[s
             print("    calls", [(round(t - t0, 1), c) for t, c in log.calls])
     verdict = None
     if problems:
+        # the open finding's class only names the verdict when nothing else is wrong with this execution
+        problems.sort(key=lambda s: s.startswith("registered-during-close"))
         verdict = {"what": f"C17 {p}: {problems[0][:600]}", "replay": {"problems": problems[:5]},
                    "signature": {"check": problems[0].split(":")[0]}}
     return verdict, obs, w.loop.handles_run
